@@ -12,7 +12,12 @@ import (
 
 //verif:redirect (*github.com/pkg/sftp.clientConn).sendPacket vStubSendPacket
 
+var vReplyCap int // 0: default bound
+
 func vReplyN() int {
+	if vReplyCap > 0 {
+		return vReplyCap
+	}
 	if vThorough() {
 		return 40
 	}
@@ -125,7 +130,7 @@ func vNativeClient() *Client {
 }
 
 func vClient() *Client {
-	vCalls, vArbAt = 0, 0
+	vCalls, vArbAt, vReplyCap = 0, 0, 0
 	vConsumed(0)
 	var c *Client
 	if vSymbolic() {
@@ -355,4 +360,29 @@ func vh_C20_unmarshalStatus() {
 	vConsumed(len(data))
 	err := unmarshalStatus(id, data)
 	vAssert(err != nil, "always an error value")
+}
+
+// the decoders inside the background worker goroutines of the concurrent
+// ReadAt path: one of the two chunk replies is arbitrary; a panic in a worker
+// goroutine is a crash of the whole process
+//
+//verif:noredirect (*github.com/pkg/sftp.clientConn).sendPacket
+//verif:redirect (*github.com/pkg/sftp.clientConn).dispatchRequest vStubDispatch
+//verif:atomic-invisible
+func vh_C20_readat_workers() {
+	c := vClient()
+	defer vDone(c)
+	c.maxPacket, c.maxConcurrentRequests, c.disableConcurrentReads = 4, 1, false
+	vReplyCap = 13 // id + length + up to 5 bytes: one more than the chunk asked for
+	vArbAt = vChoice(2)
+	f := vFile(c)
+	b := make([]byte, 8)
+	n, err := f.ReadAt(b, 0)
+	vAssert(n >= 0 && n <= len(b), "count within buffer")
+	vEmit("err", err != nil)
+}
+
+func vStubDispatch(c *clientConn, ch chan<- result, p idmarshaler) {
+	typ, data, _ := vStubSendPacket(c, nil, nil, p)
+	ch <- result{typ: typ, data: data}
 }
